@@ -10,7 +10,7 @@ PROP = dict(
     rule="allocation histories on the real utils::arena::Arena: 4 regression histories (the D14 witnesses), then "
          "(quick) 600 / (thorough) 20000 seeded histories of 1-60 allocations from 24 value kinds (u8..u128, (), "
          "[u8; 0/1/3/7/13/64/100/1000/5000/20000], #[repr(align(16/32/64))] structs incl. a zero-sized one, a repr(C) "
-         "struct) over 17 initial capacities and 5 profiles (small, aligned, big, mostly-small, uniform); the process "
+         "struct) over 17 initial capacities (capacity 0 through Arena::with_capacity(0), Arena::new() and Arena::default() in turn) and 5 profiles (small, aligned, big, mostly-small, uniform); the process "
          "runs under a global allocator that places alignment-1 blocks at every residue mod 64 in turn, so buffer base "
          "addresses are arbitrary as in the theorems; one model request per history carrying (size, align, base address "
          "of the buffer the real allocator returned) per allocation; compared observable: (buffer index, start offset) "
